@@ -148,7 +148,7 @@ func runC02(w *W) {
 	st := &c01State{}
 	scale := 4
 	if w.thorough() {
-		scale = 40
+		scale = 120
 	}
 	w.eachValidDoc(scale, func(g string, doc []byte) { w.c02Judge(st, g, doc) })
 	// tokens slid across the end of the block in which an index buffer fills (invalid ones are skipped by the judge)
